@@ -36,10 +36,75 @@ theorem good_scalar {ty allowed ser e ep}
     · exact .inr ⟨h5, by rw [h6]; exact ⟨_, rfl⟩⟩
   · exact .inr ⟨rfl, _, rfl⟩
 
+/-- a method-call cell of the date/time table names one of the three methods, and the class of the
+value is the class the method belongs to -/
+theorem dtCell_call {ty k name : String} (h : dtCell ty k = .call name) :
+    (name = "dt:date" ∧ k = "datetime") ∨ (name = "dt:time" ∧ k = "datetime") ∨
+    (name = "dt:combine" ∧ k = "date") := by
+  unfold dtCell at h
+  repeat' split at h
+  all_goals first
+    | (cases h; done)
+    | (cases h; simp_all; done)
+
+/-- typed input of `DatetimeConverter`: the fast pass returns a value exactly in the cells the diagnostic
+pass accepts, provided the three method calls of the cross cells do not raise (`DtTotal`) -/
+theorem dt_typed_agree (hD : DtTotal E) (ty : String) (v : Val) :
+    (∃ x, dtTryTyped E ty v = .ok x ∧ dtAccepts ty v = true) ∨
+    (dtTryTyped E ty v = .interrupt ∧ dtAccepts ty v = false) := by
+  unfold dtTryTyped dtAccepts
+  cases hk : v.dtKind with
+  | none => exact .inr ⟨rfl, rfl⟩
+  | some k =>
+    simp only []
+    cases hc : dtCell ty k with
+    | same => exact .inl ⟨v, rfl, by decide⟩
+    | refuse => exact .inr ⟨rfl, by decide⟩
+    | call name =>
+      have hcall : ∃ x, E.call name v = .ok x := by
+        rcases dtCell_call hc with ⟨rfl, rfl⟩ | ⟨rfl, rfl⟩ | ⟨rfl, rfl⟩
+        · exact hD.date_of_datetime v hk
+        · exact hD.time_of_datetime v hk
+        · exact hD.combine_of_date v hk
+      obtain ⟨x, hx⟩ := hcall
+      exact .inl ⟨x, by simp only [hx], by simp⟩
+
+/-- the class reported by `dtKind` is one of the three -/
+theorem dtKind_isDtName {v : Val} {k : String} (h : v.dtKind = some k) : Val.isDtName k = true := by
+  unfold Val.dtKind at h
+  split at h
+  · split at h
+    · cases h; assumption
+    · cases h
+  · split at h
+    · cases h; assumption
+    · cases h
+  · cases h
+
+theorem dtCell_same {k : String} (h : Val.isDtName k = true) : dtCell k k = .same := by
+  simp only [Val.isDtName, Bool.or_eq_true, beq_iff_eq] at h
+  rcases h with (rfl | rfl) | rfl <;> decide
+
+/-- **`id` cells.**  A value of the target class itself (an instance of a user subclass included) is
+returned unchanged by the fast pass, whatever the externals do … -/
+theorem tryC_datetime_same {ty : String} {v : Val} (h : v.dtKind = some ty) :
+    tryC E (.datetime ty) v = .ok v := by
+  have hc := dtCell_same (dtKind_isDtName h)
+  have : dtTryTyped E ty v = .ok v := by simp only [dtTryTyped, h, hc]
+  cases v <;> first | exact this | (simp [Val.dtKind] at h; done)
+
+/-- … and has no error tree -/
+theorem colC_datetime_same {ty : String} {v : Val} (h : v.dtKind = some ty) :
+    colC E (.datetime ty) v = .ok none := by
+  have hc := dtCell_same (dtKind_isDtName h)
+  have : dtAccepts ty v = true := by simp only [dtAccepts, h, hc]; decide
+  cases v <;> first | (simp only [colC, this]; rfl) | (simp [Val.dtKind] at h; done)
+
 theorem good_datetime {ty}
     (hT : covers (Facts.catches .datetimeTry) .valueError = true)
     (hC : covers (Facts.catches .datetimeCollect) .valueError = true)
-    (hiso : ∀ ty v e, E.call ("fromiso:" ++ ty) v = .error e → e.cls = .valueError) :
+    (hiso : ∀ ty v e, E.call ("fromiso:" ++ ty) v = .error e → e.cls = .valueError)
+    (hD : DtTotal E) :
     GoodF (tryC E (.datetime ty)) (colC E (.datetime ty)) := by
   intro v
   simp only [tryC, colC]
@@ -51,12 +116,11 @@ theorem good_datetime {ty}
         (fun e he => by rw [hiso ty _ e he]; exact ⟨hT, hC⟩) with ⟨a, _, h5, h6⟩ | ⟨ex, _, h5, h6⟩
     · exact .inl ⟨a, h5, by rw [h6]⟩
     · exact .inr ⟨h5, by rw [h6]; exact ⟨_, rfl⟩⟩
-  | «opaque» t r =>
+  | _ =>
     simp only []
-    split
-    · exact .inl ⟨_, rfl, rfl⟩
-    · exact .inr ⟨rfl, _, rfl⟩
-  | _ => exact .inr ⟨rfl, _, rfl⟩
+    rcases dt_typed_agree hD ty _ with ⟨x, h1, h2⟩ | ⟨h1, h2⟩
+    · exact .inl ⟨x, h1, by rw [h2]; rfl⟩
+    · exact .inr ⟨h1, by rw [h2]; exact ⟨_, rfl⟩⟩
 
 theorem good_literal {vals} : GoodF (tryC E (.literal vals)) (colC E (.literal vals)) := by
   intro v
